@@ -700,6 +700,7 @@ int main(int argc, char** argv)
       else if (!strcmp(tok[1], "defaultinclude")) default_include = atoi(tok[2]);   /* compilers keep the library's own include callback (real files) */
 #ifdef YARA_VERIF
       else if (!strcmp(tok[1], "chainhook")) yr_verif_chain_hook = atoi(tok[2]) ? on_chain : NULL;
+      else if (!strcmp(tok[1], "atomhook")) yr_verif_atom_hook = atoi(tok[2]) ? on_atom : NULL;
       else if (!strcmp(tok[1], "achooks")) { yr_verif_atom_hook = atoi(tok[2]) ? on_atom : NULL; yr_verif_cand_hook = atoi(tok[2]) ? on_cand : NULL; }
 #endif
       else if (!strcmp(tok[1], "walkmodules")) { walk_modules = atoi(tok[2]); if (walk_modules && !freopen("/dev/null", "w", stdout)) {} }
